@@ -338,6 +338,7 @@ c.ensures(connect_post, "control-stream-wraps-the-new-socket-is-limited-by-the-c
 
 # ------------------------------------------------------------------------------------ file branch of Client.upload / Client.download
 from pyvc.core import Unsupported  # noqa: E402
+from pyvc.models_path import PathVal  # noqa: E402
 from pyvc.values import Model  # noqa: E402
 
 
@@ -374,6 +375,15 @@ class LocalFile(Model):
                 return Coro(run, "localfile.write")
 
             return Builtin("localfile.write", write)
+        if name == "close":
+
+            def close(i2, a, k):
+                def run():
+                    self.closed = True
+
+                return Coro(run, "localfile.close")
+
+            return Builtin("localfile.close", close)
         raise Unsupported("localfile." + name)
 
 
@@ -385,6 +395,14 @@ class Ctx(Model):
     def __init__(self, kind, value, on_exit, on_enter=None):
         super().__init__()
         self.kind, self.value, self.on_exit, self.on_enter = kind, value, on_exit, on_enter
+
+    def m___await__(self, i):
+        # `await path_io.open(...)`: the file without the context manager (the caller has to close it)
+        i.suspend(self.kind + ".__await__")
+        i.ctx.event("enter", self.kind)
+        if self.on_enter:
+            self.on_enter()
+        return self.value
 
     def getattr(self, i, name):
         if name == "__aenter__":
@@ -421,12 +439,13 @@ def make_file_branch_setup(direction):
         it = u.it
         mod = it.modules[CLIENT]
         fn = [n for n in ast.walk(mod.tree) if isinstance(n, ast.AsyncFunctionDef) and n.name == meth][0]
-        withs = [n for n in ast.walk(fn) if isinstance(n, ast.AsyncWith) and any(isinstance(x, ast.AsyncFor) for x in n.body)]
-        if len(withs) != 1:
-            raise Unsupported(f"Client.{meth}: expected one `async with <file>, <stream>:` around the copy loop")
-        node = withs[0]
+        # the file arm: body of the first `if await ...is_file(source):` of the function, whatever its inner structure
+        arms = [n for n in ast.walk(fn) if isinstance(n, ast.If) and "is_file" in ast.unparse(n.test) and "source" in ast.unparse(n.test)]
+        if not arms:
+            raise Unsupported(f"Client.{meth}: file branch not found")
+        node_body = arms[0].body
         content = fresh("bytes", "content")
-        opened, streams = [], []
+        opened, streams, prep = [], [], []
         from contracts.c09_client import mk_path
 
         local = mk_path(u, "local", "/")
@@ -451,7 +470,24 @@ def make_file_branch_setup(direction):
                         return Ctx("file", f, closed, on_enter=lambda: opened.append(f))
 
                     return Builtin("path_io.open", op)
+                if name == "mkdir":
+
+                    def mk(i2, a, k):
+                        def run():
+                            i2.suspend("mkdir")
+                            prep.append(("mkdir", a, k))
+
+                        return Coro(run, "mkdir")
+
+                    return Builtin("path_io.mkdir", mk)
                 raise Unsupported("path_io." + name)
+
+        def make_directory(i, a, k):
+            def run():
+                i.suspend("make_directory")
+                prep.append(("make_directory", a[1:], k))
+
+            return Coro(run, "make_directory")
 
         def get_stream(i, a, k):
             rec = {"args": a[1:], "kwargs": k, "left": None}
@@ -465,7 +501,9 @@ def make_file_branch_setup(direction):
         cl = mk_client(u)
         gs = Builtin("Client.get_stream", get_stream)
         gs.is_method = True
-        cl.cls = type(cl.cls)(cl.cls.name, [cl.cls], {"get_stream": gs})
+        md = Builtin("Client.make_directory", make_directory)
+        md.is_method = True
+        cl.cls = type(cl.cls)(cl.cls.name, [cl.cls], {"get_stream": gs, "make_directory": md})
         cl.fields["path_io"] = LocalIO()
         bs = fresh("int", "block_size")
         u.assume(bs.t >= 1)
@@ -474,11 +512,11 @@ def make_file_branch_setup(direction):
 
         def run(i, a, k):
             def body():
-                i.exec(node, env, f"Client.{meth}.<locals>")
+                i.exec_block(node_body, env, f"Client.{meth}.<locals>")
 
             return Coro(body, f"{meth}-file-branch")
 
-        return Builtin(f"Client.{meth}/file-branch", run), [], {}, {"content": content, "opened": opened, "streams": streams, "stream": stream, "writer": w, "local": local, "remote": remote, "direction": direction, "self": cl}
+        return Builtin(f"Client.{meth}/file-branch", run), [], {}, {"prep": prep, "content": content, "opened": opened, "streams": streams, "stream": stream, "writer": w, "local": local, "remote": remote, "direction": direction, "self": cl}
 
     return setup
 
@@ -488,7 +526,9 @@ def branch_loop_inv(S):
     d = us.vars["direction"]
     op = us.vars["opened"]
     if len(op) != 1:
-        return False
+        # the loop contract is written for "the file is open before the copy loop starts"; a branch that opens it
+        # elsewhere is outside what this contract can decide (undecided, not a violation - rt/c01_rt.py refutes or not)
+        raise Unsupported("copy loop entered without exactly one open local file: the loop contract does not apply")
     f = op[0]
     if d == "up":
         r, wr = f.reader, us.vars["writer"].written
@@ -519,6 +559,18 @@ def branch_post(S):
     if len(op) != 1 or len(st) != 1:
         return False
     f, rec = op[0], st[0]
+    prep = S.vars["prep"]
+    # the directory that will hold the target exists before anything is transferred
+    if d == "up":
+        prep_ok = len(prep) == 1 and prep[0][0] == "make_directory" and len(prep[0][1]) == 1 and isinstance(prep[0][1][0], PathVal)
+    else:
+        prep_ok = len(prep) == 1 and prep[0][0] == "mkdir" and prep[0][2].get("parents") is True and prep[0][2].get("exist_ok") is True
+    if not prep_ok:
+        return False
+    tgt = S.vars["remote"] if d == "up" else S.vars["local"]
+    par = prep[0][1][0]
+    n = z3.Length(tgt.parts)
+    parent_ok = z3.And(par.anchor_t() == tgt.anchor_t(), z3.PrefixOf(par.parts, tgt.parts), z3.Length(par.parts) == z3.If(n > 0, n - 1, 0))
     want_mode = "rb" if d == "up" else "wb"
     if f.mode != want_mode or f.path is not S.vars["local"] or not f.closed or rec["left"] != "finish":
         return False
@@ -529,7 +581,7 @@ def branch_post(S):
     verb = "STOR " if d == "up" else "RETR "
     want_cmd = sp.value(f'"{verb}" + str(remote)', S)
     moved = S.vars["writer"].written if d == "up" else f.written
-    return z3.And(it.unbox(rec["args"][0]).t == want_cmd.t, moved == S.vars["content"].t)
+    return z3.And(parent_ok, it.unbox(rec["args"][0]).t == want_cmd.t, moved == S.vars["content"].t)
 
 
 def branch_raise(S):
